@@ -1,6 +1,7 @@
 package h
 
 import (
+	z "github.com/Oudwins/zog"
 	v "github.com/Oudwins/zog/zzverif"
 )
 
@@ -14,12 +15,100 @@ func init() {
 // semantics, C01 re-evaluates the declared constraints on the destination whenever zog
 // reported nothing (an oracle that does not depend on the reference's issue computation).
 
-func C01_Jobs() []string   { return shapeJobs() }
+func C01_Jobs() []string {
+	return append(shapeJobs(), "hist/two-dest-types/parse", "hist/two-dest-types/validate", "hist/catch-then-ptr", "hist/shared-leaf")
+}
 func C02_Jobs() []string   { return shapeJobs() }
 func C01_Covers() []string { return []string{"no-issues", "issues"} }
 func C02_Covers() []string { return []string{"no-issues", "issues"} }
 
+type c01A struct {
+	Name string
+	Nick string
+	Age  int
+}
+type c01B struct { // same fields as c01A in another order
+	Age  int
+	Nick string
+	Name string
+}
+
+// constraints must not be skipped because of an earlier call
+func c01History(kind, mode string) {
+	switch kind {
+	case "two-dest-types":
+		// one schema value used with two destination types
+		m, g := v.Int("min"), v.Int("gt")
+		name, nick, age := visible("name", 2), visible("nick", 2), v.Int("age")
+		schema := z.Struct(z.Schema{"name": z.String().Min(m).Required(), "nick": z.String(), "age": z.Int().GT(g)})
+		in := map[string]any{"name": name, "nick": nick, "age": age}
+		var a c01A
+		var b c01B
+		var e1, e2 z.ZogIssueMap
+		if mode == "parse" {
+			e1 = schema.Parse(in, &a)
+			e2 = schema.Parse(in, &b)
+		} else {
+			a = c01A{name, nick, age}
+			b = c01B{age, nick, name}
+			e1 = schema.Validate(&a)
+			e2 = schema.Validate(&b)
+		}
+		_ = e1
+		if e2 != nil {
+			v.Cover("issues")
+			return
+		}
+		v.Cover("no-issues")
+		v.Assert(len(b.Name) > 0 && len(b.Name) >= m, "C01:constraint-not-enforced")
+		v.Assert(b.Age == 0 || b.Age > g, "C01:constraint-not-enforced")
+		v.Assert(b.Name == name && b.Nick == nick && (b.Age == age || mode == "validate"), "C01:value-placed-in-the-wrong-field")
+	case "catch-then-ptr":
+		// an earlier call with a catching schema (the catch need not fire), then nodes behind pointers
+		x := v.Int("x")
+		d := 5
+		z.Int().Catch(3).Parse(x, &d)
+		z.Int().Catch(3).Validate(&d)
+		var np *int
+		sl := []int{x}
+		psl := &sl
+		k := v.Int("k")
+		e1 := z.Ptr(z.Int()).NotNil().Validate(&np)
+		e2 := z.Ptr(z.Slice(z.Int())).Validate(&psl)
+		e3 := z.Ptr(z.Slice(z.Int()).Min(k)).Validate(&psl)
+		v.Assert(e1 != nil, "C01:constraint-not-enforced")
+		v.Assert(e2 == nil, "C01:unexpected-issue")
+		if e3 == nil {
+			v.Cover("no-issues")
+			v.Assert(1 >= k, "C01:constraint-not-enforced")
+		} else {
+			v.Cover("issues")
+		}
+	case "shared-leaf":
+		// the same leaf schema object reused by two calls with different outcomes
+		g := v.Int("g")
+		leaf := z.Int().GT(g).Catch(7)
+		x, y := v.Int("x"), v.Int("y")
+		var d struct {
+			A int
+			L []int
+		}
+		errs := z.Struct(z.Schema{"a": leaf, "l": z.Slice(z.Int().GT(g)).Required()}).Parse(map[string]any{"a": x, "l": []any{y}}, &d)
+		if errs == nil {
+			v.Cover("no-issues")
+			v.Assert(len(d.L) == 1 && d.L[0] > g, "C01:constraint-not-enforced")
+			v.Assert(d.A > g || d.A == 7, "C01:constraint-not-enforced")
+		} else {
+			v.Cover("issues")
+		}
+	}
+}
+
 func C01_Run(job string) {
+	if h, kind, mode, _ := split3(job); h == "hist" {
+		c01History(kind, mode)
+		return
+	}
 	sh := buildShape(job)
 	o := runReal(sh)
 	if !o.empty() {
